@@ -15,7 +15,7 @@
 (* object, which is what Submit requires.                                                                     *)
 EXTENDS Naturals, Sequences, FiniteSets, TLC
 
-CONSTANTS Clusters, Aliases, Variant, MaxEvents
+CONSTANTS Clusters, Aliases, Variant, MaxEvents, Admission     \* Admission = FALSE: objects whose names collide with another cluster's reach the gateway too
 Absent == {"#absent"}     \* (a set, like every other value of api/applied)
 None == "none"
 Hosts == Clusters \cup Aliases
@@ -30,7 +30,7 @@ Init == /\ api = [c \in Clusters |-> Absent] /\ mgr = [h \in Hosts |-> None] /\ 
 Claimed(c) == IF api[c] = Absent THEN {} ELSE NamesOf(c, api[c])
 \* control plane: create / update / delete (admission: no collision with the other clusters' current objects)
 Submit(c, al) == /\ nev < MaxEvents /\ api[c] # al
-                 /\ \A o \in Clusters \ {c} : Claimed(o) \cap NamesOf(c, al) = {}
+                 /\ Admission => \A o \in Clusters \ {c} : Claimed(o) \cap NamesOf(c, al) = {}
                  /\ api' = [api EXCEPT ![c] = al] /\ queue' = Append(queue, [c |-> c, obj |-> al, tries |-> 0]) /\ nev' = nev + 1
                  /\ hist' = Append(hist, [k |-> "apply", c |-> c, al |-> al])
                  /\ UNCHANGED <<mgr, applied>>
@@ -53,7 +53,9 @@ Work ==
                IF Conflict(c, new)                                             \* checkUpstreamServerNameConflict -> requeue
                  THEN /\ queue' = IF e.tries < 3 /\ ~(Variant = "dropstale" /\ e.obj # api[c])     \* "dropstale": a superseded version is not retried
                                      THEN Append(Tail(queue), [e EXCEPT !.tries = @ + 1]) ELSE Tail(queue)
-                      /\ UNCHANGED <<mgr, applied>>
+                      \* "rewrite" (refuted by DeletedStop): the cluster's remembered names are overwritten BEFORE the conflict is found
+                      /\ applied' = IF Variant = "rewrite" /\ applied[c] # Absent THEN [applied EXCEPT ![c] = new] ELSE applied
+                      /\ UNCHANGED mgr
                  ELSE /\ mgr' = [h \in Hosts |-> IF h \in new THEN c
                                                 ELSE IF applied[c] # Absent /\ h \in applied[c] /\ mgr[h] = c THEN None ELSE mgr[h]]
                       /\ applied' = [applied EXCEPT ![c] = new] /\ queue' = Tail(queue)
@@ -70,4 +72,8 @@ Converged == queue = <<>> => \A h \in Hosts : mgr[h] = Owner(h)
 \* an event never removes or captures a name that belongs to another cluster (which still claims and serves it)
 NoCapture == [][\A h \in Hosts : (mgr[h] # None /\ h \in Claimed(mgr[h]) /\ api[mgr[h]] = api'[mgr[h]]
                                    /\ (queue # <<>> => Head(queue).c # mgr[h])) => mgr'[h] = mgr[h]]_vars
+\* colliding objects (Admission = FALSE): once the worker has caught up, no name resolves to a cluster that has been deleted ...
+DeletedStop == queue = <<>> => \A h \in Hosts : mgr[h] # None => api[mgr[h]] # Absent
+\* ... and a name only resolves to a cluster that serves it (the table and the clusters' own lists agree)
+TableAgrees == \A h \in Hosts : mgr[h] # None => (applied[mgr[h]] # Absent /\ h \in applied[mgr[h]])
 =============================================================================
